@@ -40,12 +40,11 @@ def _zi(t):
 def copy_slist(interp, xs):
     """list(xs): a new list object with the same elements (mutations of the copy do not affect xs)."""
     from .mlist import MList
+    from . import seqs
     if isinstance(xs, MList):
         return xs.copy(interp)
-    ys = SList(xs.length, xs.elem, interp.st.fresh_name(xs.uid + '.copy'))
-    ys.cache = dict(xs.cache)
-    _jfun(interp, xs)
-    ys.aux = dict(xs.aux)
+    ys = seqs.copy(xs)            # a mutable cell whose structural normal form is [xs]
+    ys.aux = {}
     return ys
 
 
@@ -157,6 +156,12 @@ def prefix_join(interp, xs, i):
         return out
     if not isinstance(xs, SList):
         raise Unsupported('prefix_join of %r' % (xs,))
+    from . import seqs
+    parts = seqs.parts_of(xs)
+    if len(parts) == 1 and parts[0][0] == 'base' and parts[0][1] is not xs:
+        return prefix_join(interp, parts[0][1], i)       # a copy (`list(xs)`): the measure of the original
+    if len(parts) > 1 and z3.simplify(_zi(i) == xs.length).eq(z3.BoolVal(True)):
+        return join_all(interp, xs)
     j = _jfun(interp, xs)
     t = z3.simplify(_zi(i))
     _unfold(interp, xs, z3.simplify(t - 1))
@@ -172,7 +177,26 @@ def m_prefix_join(interp, args, kwargs):
 
 
 def join_all(interp, xs):
-    return prefix_join(interp, xs, wrap(xs.length))
+    """''.join(xs).  A sequence in structural normal form (a concatenation of single elements and base
+    sequences, seqs.parts_of) is joined piece by piece: join(x ++ y) == join(x) + join(y); a base sequence
+    by its prefix-join measure."""
+    from . import seqs
+    parts = seqs.parts_of(xs)
+    if len(parts) == 1 and parts[0][0] == 'base' and parts[0][1] is xs:
+        return prefix_join(interp, xs, wrap(xs.length))
+    out = ''
+    import ast as _ast
+    for kind, v in parts:
+        if kind == 'elem':
+            if isinstance(v, (SOpt, SChoice)):
+                v = interp.resolve(v)
+            if not isinstance(v, (SStr, str)):
+                raise _pyraise(TypeError('sequence item: expected str instance'))
+            piece = v
+        else:
+            piece = join_all(interp, v)
+        out = interp.binop(_ast.Add, out, piece) if not (isinstance(out, str) and out == '') else piece
+    return out
 
 
 def join_iter(interp, it):
